@@ -70,6 +70,12 @@ func init() {
 		"(*sync.Pool).Get":        poolGet,
 		"(*sync.Pool).Put":        nop,
 		"runtime.SetFinalizer":    nop,
+		// error annotation frames (program counters are environment)
+		"golang.org/x/xerrors.Caller": func(fr *frame, a []value) (value, bool) {
+			return structure{array{uintptr(0), uintptr(0), uintptr(0)}}, true
+		},
+		"(golang.org/x/xerrors.Frame).Format":   nop,
+		"(golang.org/x/xerrors.Frame).location": func(fr *frame, a []value) (value, bool) { return tuple{"", "", 0}, true },
 		"runtime.KeepAlive":       nop,
 
 		// sync/atomic
